@@ -7,7 +7,7 @@ package crash
 // lines, the "Error: at <where>(line N)" lines, and the exit status. Oracle
 // (docs/internals/TESTING.md, "@test"): every block before the first @fail is
 // reported exactly once, in file order, with the outcome known by construction;
-// the process exits 0 iff every block passes.
+// the process exits 0 iff every block passes; the "Completed a total of N tests, F failed" line counts every prescribed test.
 
 import (
 	"context"
@@ -128,6 +128,35 @@ func c13Variants() []c13Variant {
 		{kind: "pass", name: "redeclares-same-names", expect: "PASS", lines: func(i int) []string {
 			return []string{"type dupT struct {", "    b string", "}", "func dupF(a int) int {", "    return a * 2", "}", "const dupC = 4", "v := dupT{b: \"x\"}", "@assert dupF(dupC) == 8", "@assert v.b == \"x\""}
 		}},
+
+		// the GENERIC panic error raised while it is catchable: bare @error, throw errors.New("panic"), argument-count failures
+		v("runtime", "bare-error-directive", "FAIL", 0, func(i int) []string { return []string{"x := 1", "fmt.Println(x)", "@error"} }),
+		v("runtime", "throw-panic-key", "FAIL", 0, func(i int) []string { return []string{"throw errors.New(\"panic\")"} }),
+		v("runtime", "throw-panic-key-from-func-result", "FAIL", 0, func(i int) []string {
+			return []string{fmt.Sprintf("func fn_%d() error {", i), "    return errors.New(\"panic\")", "}", fmt.Sprintf("throw fn_%d()", i)}
+		}),
+		v("runtime", "builtin-argcount", "FAIL", 0, func(i int) []string {
+			return []string{"s := \"abc\"", "n := strings.ToUpper(s, s, s)", "fmt.Println(n)"}
+		}),
+		v("runtime", "builtin-argcount-none", "FAIL", 0, func(i int) []string { return []string{"n := strings.Repeat()", "fmt.Println(n)"} }),
+		v("infunc", "bare-error-in-func", "FAIL", 0, func(i int) []string {
+			return []string{fmt.Sprintf("func fn_%d(a int) int {", i), "    if a > 0 {", "        @error", "    }", "    return a", "}", fmt.Sprintf("v := fn_%d(3)", i), "fmt.Println(v)"}
+		}),
+		v("infunc", "argcount-in-func", "FAIL", 0, func(i int) []string {
+			return []string{fmt.Sprintf("func fn_%d(a int, b int) int {", i), "    return a + b", "}", fmt.Sprintf("v := fn_%d(1)", i), "fmt.Println(v)"}
+		}),
+		v("opentry", "bare-error-in-try-rethrown-bare", "FAIL", 0, func(i int) []string {
+			return []string{"try {", "    @error", "} catch (e) {", "    fmt.Println(e)", "    @error", "}"}
+		}),
+		v("opentry", "throw-panic-key-in-nested-try", "FAIL", 0, func(i int) []string {
+			return []string{"try {", "    try {", "        throw errors.New(\"panic\")", "    } catch (e1) {", "        fmt.Println(e1)", "        throw e1", "    }", "} catch (e2) {", "    fmt.Println(e2)", "    @error", "}"}
+		}),
+		v("pass", "bare-error-caught-by-user-try", "PASS", 0, func(i int) []string {
+			return []string{"ok := false", "try {", "    @error", "} catch (e) {", "    ok = (e != nil)", "}", "@assert ok"}
+		}),
+		v("pass", "throw-panic-key-caught-by-user-try", "PASS", 0, func(i int) []string {
+			return []string{"ok := false", "try {", "    throw errors.New(\"panic\")", "} catch (e) {", "    ok = (e != nil)", "}", "@assert ok"}
+		}),
 
 		v("opentry", "error-in-catch", "FAIL", 0, func(i int) []string {
 			return []string{"try {", "    z := 1", "    @assert z == 2", "} catch (e) {", "    k := []int{1}", "    q := 7", "    fmt.Println(e, k[q])", "}"}
@@ -260,9 +289,10 @@ func c13Build(chosen []c13Variant, salt int) c13File {
 }
 
 var (
-	reStatus = regexp.MustCompile(`^TEST: (\S+)\s+\((PASS|FAIL)\)`)
-	reErrAt  = regexp.MustCompile(`^\s*Error: at ([^\s(]+)\(line (\d+)(?::\d+)?\)`)
-	reErrAny = regexp.MustCompile(`^\s*Error: `)
+	reStatus  = regexp.MustCompile(`^TEST: (\S+)\s+\((PASS|FAIL)\)`)
+	reErrAt   = regexp.MustCompile(`^\s*Error: at ([^\s(]+)\(line (\d+)(?::\d+)?\)`)
+	reErrAny  = regexp.MustCompile(`^\s*Error: `)
+	reSummary = regexp.MustCompile(`(?m)^TEST: Completed(?: a total of (\d+))? tests(?:, (\d+) failed)?`)
 )
 
 type c13Event struct {
@@ -436,6 +466,46 @@ func c13Judge(f *c13File, run c13Run) (findings []c13Finding, nStatus, nErr int)
 		}
 	}
 
+	// summary line: "TEST: Completed a total of N tests, F failed in ..." must count every prescribed test.
+	// Only claimed when every block's outcome is prescribed and reachable: no @fail block and no unbalanced-brace block.
+	prescribed := true
+	wantN, wantF := 0, 0
+
+	for _, b := range f.Blocks {
+		if b.Expect == "STOP" || b.Brace != 0 {
+			prescribed = false
+		}
+
+		wantN++
+
+		if b.Expect == "FAIL" {
+			wantF++
+		}
+	}
+
+	if prescribed {
+		if m := reSummary.FindStringSubmatch(run.Stdout); m == nil {
+			add("summary:missing", "no \"TEST: Completed ...\" summary line", nil)
+		} else {
+			gotN, gotF := 0, 0
+			if m[1] != "" {
+				gotN, _ = strconv.Atoi(m[1])
+			}
+
+			if m[2] != "" {
+				gotF, _ = strconv.Atoi(m[2])
+			}
+
+			if gotN != wantN {
+				add("summary:total-mismatch", fmt.Sprintf("summary counts %d tests, the file has %d @test blocks", gotN, wantN), nil)
+			}
+
+			if gotF != wantF {
+				add("summary:failed-mismatch", fmt.Sprintf("summary counts %d failed tests, %d blocks fail by construction", gotF, wantF), nil)
+			}
+		}
+	}
+
 	// exit status
 	wantFail := false
 	for _, b := range f.Blocks {
@@ -457,7 +527,7 @@ func c13Judge(f *c13File, run c13Run) (findings []c13Finding, nStatus, nErr int)
 
 func TestC13(t *testing.T) {
 	r := vh.New("C13", "isolation")
-	r.Rule = "files of 3-12 @test blocks drawn by PRNG from 37 templates of 7 kinds (some files start with file-scope var/const/type/func declarations whose only uses are inside tests that do not compile; some tests declare a type/func/const before their syntax error and a later test declares the same names) (pass, assert, runtime, infunc, nocompile, opentry, fail) run by the real `ego test`; " +
+	r.Rule = "files of 3-12 @test blocks drawn by PRNG from 48 templates of 7 kinds (incl. the generic panic error raised while catchable: bare @error in the body / in a called function / in a user try, throw errors.New(`panic`), argument-count failures) (some files start with file-scope var/const/type/func declarations whose only uses are inside tests that do not compile; some tests declare a type/func/const before their syntax error and a later test declares the same names) (pass, assert, runtime, infunc, nocompile, opentry, fail) run by the real `ego test`; " +
 		"distinct = distinct sequence of (kind, variant); non-trivial = at least one failing block followed by at least one more block before any @fail."
 	r.Assume("TESTING.md: each @test up to the next @test is compiled and guarded independently; a failure prints a (FAIL) status line followed by the error; only @fail stops the run")
 	r.Assume("the outcome of each template alone is what its construction says; this is checked by running every template in a file of its own (calibration)")
@@ -599,6 +669,16 @@ func TestC13(t *testing.T) {
 
 	jobs = append(jobs, job{"probe-filescope-used-only-by-broken-tests", "probe", c13Build([]c13Variant{pass, byName["nocompile/uses-filescope-then-syntax-error"], byName["pass/loop"], byName["nocompile/uses-filescope-then-unknown-stmt"], byName["assert/plain"], pass}, 778)})
 	jobs = append(jobs, job{"probe-redeclare-after-broken-test", "probe", c13Build([]c13Variant{pass, byName["nocompile/declares-then-syntax-error"], byName["runtime/index"], byName["pass/redeclares-same-names"], byName["nocompile/declares-then-syntax-error"], byName["pass/redeclares-same-names"], pass}, 779)})
+	gp := []string{"runtime/bare-error-directive", "runtime/throw-panic-key", "runtime/builtin-argcount", "infunc/bare-error-in-func", "opentry/bare-error-in-try-rethrown-bare", "runtime/throw-panic-key-from-func-result", "infunc/argcount-in-func", "opentry/throw-panic-key-in-nested-try", "runtime/builtin-argcount-none"}
+	for gi, g := range gp {
+		first := []c13Variant{byName[g], pass, byName["assert/plain"], byName["pass/loop"]}
+		middle := []c13Variant{pass, byName["assert/plain"], byName[g], byName["pass/loop"], byName["runtime/index"], pass}
+		last := []c13Variant{pass, byName["pass/loop"], byName["assert/plain"], byName[g]}
+		jobs = append(jobs, job{fmt.Sprintf("probe-generic-panic-%d-first", gi), "probe", c13Build(first, 800+gi*3)},
+			job{fmt.Sprintf("probe-generic-panic-%d-middle", gi), "probe", c13Build(middle, 801+gi*3)},
+			job{fmt.Sprintf("probe-generic-panic-%d-last", gi), "probe", c13Build(last, 802+gi*3)})
+	}
+
 	jobs = append(jobs, job{"probe-runtime-status", "probe", c13Build([]c13Variant{pass, byName["assert/plain"], byName["runtime/index"], byName["infunc/named"], byName["opentry/error-in-catch"], pass}, 777)})
 	probeNames = append(probeNames, "status-line-missing:runtime-fail")
 
